@@ -2,8 +2,10 @@
 (* C15 driver.
    mode wrap: same case lines as harness/src/bin/c15.rs wrap mode; prints per call what the model
               says reaches the raw storage / is read (sorted), "-" when nothing.
-   mode seq : `<n> { <entry idx | -1> <nflags> { <flag> <0|1> }* }*` (flags not listed are unknown);
-              prints per op `ao=<0/1>:<ok|refused>:<allowed effect classes>` joined by " ; ". *)
+   mode seq : `<mode 0|1|2> <n> { <entry idx | -1 dmg | -2 keep> <on kept handle 0|1> <fault 0..4> <nflags> { <flag> <0|1> }* }*`
+              (flags not listed are unknown; mode 1 = hot/cold; fault = position of a storage fault
+              inside apply_config); prints per op
+              `ao=<fresh view>,c=<stored cold>,h=<kept handle|->:<ok|refused>:<allowed effect classes>` joined by " ; ". *)
 let tof = function 0 -> Config | 1 -> Index | 2 -> Key | 3 -> Snapshot | _ -> Pack
 let tnum = function Config -> 0 | Index -> 1 | Key -> 2 | Snapshot -> 3 | Pack -> 4
 let tname = function Config -> "config" | Index -> "index" | Key -> "key" | Snapshot -> "snapshot" | Pack -> "pack"
@@ -58,23 +60,42 @@ let classes_of (s : site) =
   | KCreate -> []
   | _ -> ["W:" ^ tstr s.s_ftype]
 
+let fault_of = function 1 -> FailFirst | 2 -> FailSecond | 3 -> FirstStoredButErr | 4 -> SecondStoredButErr | _ -> NoFault
+
+(* state: append_only in the stored cold config, in the stored hot copy, in the kept handle *)
 let seq_case line =
   let t = toks line in
+  let mode = ni t in
   let n = ni t in
-  let ao = ref false in
+  let cold = ref false and hot = ref false and kept = ref None in
+  let b2s b = if b then "1" else "0" in
   let outs = ntimes n (fun () ->
     let e = ni t in
+    let on_kept = ni t = 1 in
+    let fault = fault_of (ni t) in
     let nf = ni t in
     let fl = ntimes nf (fun () -> let f = ni t in let b = ni t = 1 in (f, b)) in
-    if e < 0 then "dmg" else begin
+    let fresh = if mode = 1 then !hot else !cold in
+    let views = Printf.sprintf "ao=%s,c=%s,h=%s" (b2s fresh) (b2s !cold) (match !kept with Some b -> b2s b | None -> "-") in
+    if e = -1 then "dmg"
+    else if e = -2 then begin kept := Some fresh; "keep" end
+    else begin
+      let ao = if on_kept then (match !kept with Some b -> b | None -> fresh) else fresh in
       let v3 f = List.assoc_opt (int_of_n f) fl in
       let v2 f = match v3 f with Some b -> b | None -> false in
-      let (r, sites) = allowed entries.(e) !ao v3 in
+      let (r, sites) = allowed entries.(e) ao v3 in
       let cls = List.sort_uniq compare (List.concat_map classes_of sites) in
-      let before = !ao in
-      let o = { o_entry = entries.(e); o_flags = v2; o_payload = [] } in
-      ao := next_ao { st_ao = !ao; st_names = [] } o r;
-      Printf.sprintf "ao=%d:%s:%s" (if before then 1 else 0)
+      (match entries.(e), r with
+       | EApplyConfig, Done ->
+         let o = { o_entry = EApplyConfig; o_flags = v2; o_payload = [] } in
+         (* the value append_only has in the new config *)
+         let target = next_ao { st_ao = ao; st_names = [] } o Done in
+         let s' = config_step config_set_before_save config_cold_before_hot fault target
+                    { c_cold = !cold; c_hot = !hot; c_handle = ao } in
+         cold := s'.c_cold; hot := (if mode = 1 then s'.c_hot else s'.c_cold);
+         if on_kept || fault <> NoFault then kept := Some s'.c_handle
+       | _ -> ());
+      Printf.sprintf "%s:%s:%s" views
         (match r with Done -> "ok" | Refused -> "refused")
         (if cls = [] then "-" else String.concat "," cls)
     end) in
